@@ -37,6 +37,8 @@ fn td_cfg(eager: bool, t: u16, len: usize, kind: usize, p: u16) -> MCfg {
         process_unmapped: false,
         concurrent_tap_hold: false,
         rapid_event_delay: Some(p),
+        layermap: 0,
+        chords_v2: vec![],
     }
 }
 
